@@ -526,6 +526,18 @@ InvRescale ==
          z2 == [last.z EXCEPT ![r0] = RMul(RI(4), @)]
          K2 == Kalman(d2, key, last.prior, z2) IN
      (IsBad(z2[r0]) \/ NVecBad(K2.x) \/ NMatBad(K2.P) \/ NMatBad(K2.S)) \/ (K2.x = est.x /\ K2.P = est.P)
+\* C05 (spec level): only the RATIO of prior covariance and sensor noise matters.  With P and the noise of the sensor both scaled
+\* by c the gain is the same, the corrected state is the same and the posterior covariance is c times the old one.  TLC checks
+\* it exactly with c = 1/4; the replay harness uses c = 2^-40 (variances of 1e-12: nothing may be compared against an absolute
+\* tolerance).
+ScaleNoise(d, key, c) == [d EXCEPT !.snoise[key] = [r \in DOMAIN @ |-> RMul(c, @[r])]]
+ScaleMat(F, c) == [r \in DOMAIN F |-> [cc \in DOMAIN F[r] |-> RMul(c, F[r][cc])]]
+InvScaleCov ==
+  (last # <<>> /\ last.act = "Update" /\ last.outcome = "accepted") =>
+     LET key == last.key
+         c == RQ(1, 4)
+         K2 == Kalman(ScaleNoise(def, key, c), key, [x |-> last.prior.x, P |-> ScaleMat(last.prior.P, c)], last.z) IN
+     (NVecBad(K2.x) \/ NMatBad(K2.P) \/ NMatBad(K2.S) \/ NMatBad(ScaleMat(est.P, c))) \/ (K2.x = est.x /\ K2.P = ScaleMat(est.P, c))
 \* C04 (spec level): a control input measured in other units changes nothing.  With u0 = c * u0' the update expressions read
 \* c * u0' wherever they read u0, the control Jacobian column grows by c and the noise variance of u0' is M/c^2: V M V^T is the same.
 \* TLC checks it exactly with c = 4; the replay harness uses c = 2^20, which takes the variance down to ~1e-12 -- noise
